@@ -94,6 +94,25 @@ class Ctx:
         if not cond:
             raise AnalysisError(msg)
 
+    def single_exit(self, f, allow=0):
+        """Structural rules judge one path through a function.  A return statement they do not
+        account for (an early exit / shortcut branch) is a path nobody analysed: the run is
+        analysis-broken (exit 2), not a pass."""
+        import ast as _ast
+        body = f.node.body
+        last = body[-1] if body else None
+        nested = set()
+        for n in _ast.walk(f.node):
+            if isinstance(n, (_ast.FunctionDef, _ast.Lambda)) and n is not f.node:
+                nested |= {id(x) for x in _ast.walk(n)}
+        extra = [n for n in _ast.walk(f.node) if isinstance(n, _ast.Return) and n is not last
+                 and id(n) not in nested]
+        if len(extra) != allow:
+            raise AnalysisError('%s has %d return statement(s) besides its final one (line %s): '
+                                'an exit path the structural rules do not model'
+                                % (f.qualname, len(extra),
+                                   ', '.join(str(n.lineno) for n in extra)))
+
     # ------------------------------------------------------------- finishing
     def finish(self):
         kf_path = os.path.join(VERIF, 'known_findings.json')
